@@ -171,6 +171,13 @@ def g2_g3(repo, res):
             inline = True
             for st in (x for x in ast.walk(s) if isinstance(x, ast.Assign) and any(ast.unparse(t) == own for t in x.targets)):
                 v = st.value
+                if isinstance(v, ast.Name):
+                    # a local that is only ever bound to validating expressions (`x = Cls(text=val) if .. else validate_..(val, ..)`)
+                    defs_ = [a_.value for a_ in ast.walk(s) if isinstance(a_, ast.Assign) and any(isinstance(t_, ast.Name) and t_.id == v.id for t_ in a_.targets)]
+                    params_ = {a_.arg for a_ in s.args.args}
+                    if defs_ and v.id not in params_ and all(isinstance(d_, ast.Call) and ((call_name(d_) or "").startswith(("color_validator", "validate_", "_validate_", "check_"))
+                                                                                           or (call_name(d_) or "")[:1].isupper()) for d_ in defs_):
+                        v = defs_[0]
                 self_valid = isinstance(v, ast.Constant) or isinstance(v, ast.Call) and ((call_name(v) or "").startswith(("color_validator", "validate_", "_validate_", "check_", "str", "float", "int", "bool", "tuple"))
                                                           or (call_name(v) or "")[:1].isupper())
                 sc = branch_chain(st)
